@@ -4,24 +4,31 @@ from __future__ import annotations
 import ast
 import struct
 
-from sa.astx import call_name, src
+from sa.astx import call_name, src, walk_local
 from sa.selftest import Mutant, Silent
 from sa.source import AnalysisError
-from sa.props._lib_i import sect, COMPAT, BlockRaised, FollowModule, Raised, bind_methods, class_env, eval_block, interp, module_env, peval
+from sa.props._lib_c import norm_class
+from sa.props._lib_i import sect, COMPAT, Abstain, BlockRaised, FollowModule, structural, Raised, bind_methods, class_env, eval_block, interp, module_env, peval
 
 PROPERTY = "C44"
+RULE_KINDS = {
+    "tags/distinct-high-bit": "structural", "tags-table/": "structural", "vocab/tables-inverse": "structural", "limits/installed-on-connect": "structural",
+    "sender-cfg/": "structural", "limits-cfg/": "structural",
+    # evaluated on enumerated boundary values / step cases / segmentations: bounded evidence (integer ranges and streams are not finite domains)
+    "radix/": "bounded", "limits/encoder-matches-prefix-limit": "bounded", "encode/": "bounded", "decode/": "bounded", "tags/encoder-subset-of-decoder": "bounded",
+}
 BANANA = "spread/banana.py"
-TECHNIQUE = "finite evaluation of encoder branches and decoder step function against a reference wire format"
+TECHNIQUE = "table agreement and CFG order structural; boundary and step evaluation bounded"
 EXPLANATION = (
-    "int2b128 / b1282int are evaluated on boundary magnitudes against little-endian radix-128 (all digits < 0x80). One call of "
-    "Banana._encode is evaluated per value kind and limit boundary against the reference wire format (prefix digits, a type byte "
-    "whose sign convention the decoder shares, payload; refusal of ints beyond +-(2^(7*prefixLimit)-1) and of sizes > SIZE_LIMIT; "
-    "VOCAB only in the pb dialect). One iteration of dataReceived's scanning loop is evaluated as a step function (buffer, list "
-    "stack) -> (delivered items, remaining buffer, saved buffer): every tag written by the encoder has a branch with the same "
-    "sign / '!d' format, incomplete strings / floats / prefixes wait without consuming, complete-at-chunk-end items are delivered, "
-    "prefix and size limits are refused on both the type-byte-seen and not-yet-seen paths, lists close (also nested / empty), "
-    "unknown type bytes raise; leftover bytes are prepended to the next chunk; the vocabulary tables are inverse; connectionMade "
-    "installs the limits. Not decided: equality of arbitrary nested structures over all segmentations (value-level)."
+    'STRUCTURAL: type bytes are distinct and >= 0x80; every type byte the encoder (with its private helpers) mentions is me'
+    'ntioned by dataReceived, a helper it calls or a table it consults; the vocabulary tables are inverse; connectionMade i'
+    'nstalls the limits on every path; every sender hands _encode a sink that is not the transport and writes the transport'
+    ' only after _encode returned (must-precede). BOUNDED only - integers, lengths and streams are infinite domains and the'
+    ' decisions are arithmetic on values, so no complete finite domain exists: int2b128/b1282int on boundary magnitudes; se'
+    "tPrefixLimit's bounds for two limits; one _encode call per value kind and limit boundary in both dialects against the "
+    'reference wire format (refusals included); one dataReceived step per type byte / completeness / limit case incl. zero-'
+    'padded oversized prefixes whole and split; reference streams under every 2-way split and byte by byte; refused values '
+    'leave nothing on a recording transport. Not decided: equality of arbitrary structures over all segmentations.'
 )
 ASSUMPTIONS = ["struct.pack/unpack '!d' are bit-exact inverses (stdlib)", "Banana.gotItem / callExpressionReceived deliver to expressionReceived (gotItem is evaluated, the rest is opaque)"]
 
@@ -259,6 +266,124 @@ def check(ctx):
                 if err is None:
                     emitted_tags |= scan_tags(wire)
         f_d = ctx.func(BANANA, "Banana.dataReceived")
+
+    # ---- structural: type-byte table agreement and sender shape, on the class with private helpers followed
+    with structural(ctx, "tags-table/encoder-subset-of-decoder", "tags/encoder-subset-of-decoder (bounded)"):
+        meths_all = {m.name: m for m in banana_cls.body if isinstance(m, ast.FunctionDef)}
+
+        def closure(start):
+            seen, work = {start}, [start]
+            while work:
+                cur = meths_all[work.pop()]
+                for c in ast.walk(cur):
+                    n_ = (call_name(c) or "") if isinstance(c, ast.Call) else ""
+                    if n_.startswith("self.") and n_[5:] in meths_all and n_[5:] not in seen:
+                        seen.add(n_[5:])
+                        work.append(n_[5:])
+            return [meths_all[n_] for n_ in seen]
+        if "_encode" not in meths_all or "dataReceived" not in meths_all:
+            raise Abstain("_encode / dataReceived not found")
+        mod_dicts = {st.targets[0].id: st.value for st in mod.tree.body if isinstance(st, ast.Assign) and len(st.targets) == 1 and isinstance(st.targets[0], ast.Name)
+                     and isinstance(st.value, (ast.Dict, ast.Tuple, ast.Set, ast.List))}
+
+        def tag_names(funcs_):
+            out = set()
+            for fn in funcs_:
+                for n_ in ast.walk(fn):
+                    if isinstance(n_, ast.Name) and isinstance(n_.ctx, ast.Load):
+                        if n_.id in tags:
+                            out.add(n_.id)
+                        elif n_.id in mod_dicts:          # a module-level table the function consults: its tag keys / members count
+                            out |= {x.id for x in ast.walk(mod_dicts[n_.id]) if isinstance(x, ast.Name) and x.id in tags}
+            return out
+        enc_tags, dec_tags = tag_names(closure("_encode")), tag_names(closure("dataReceived"))
+        if len(enc_tags) < 6:
+            raise Abstain(f"only {len(enc_tags)} type-byte constants are mentioned by the encoder")
+        for t in sorted(enc_tags):
+            ctx.check(t in dec_tags, "tags-table/encoder-subset-of-decoder", f"{base}Banana.dataReceived | type byte {t}",
+                      f"the encoder writes the type byte {t}, but neither dataReceived (with the private helpers it calls) nor a table it consults mentions {t}")
+    mod_funcs = {st.name: st for st in mod.tree.body if isinstance(st, ast.FunctionDef)}
+
+    def limit_guarded(g, n_, mentions):
+        """node n_ is dominated by a test that mentions `mentions`, or every path to it passes a call of a module-level helper whose own test mentions it and raises;
+        None when an unknown helper call on the way could hold the test (the rule abstains for this site)"""
+        if g.guarded(n_, lambda e: mentions(src(e)), None) or mentions(src(g.node(n_).ast)):
+            return True
+        helper_nodes, unknown = [], False
+        for k in g.ids(lambda x: x.kind == "stmt"):
+            for c in walk_local(g.node(k).ast):
+                if isinstance(c, ast.Call) and isinstance(c.func, ast.Name) and c.func.id in mod_funcs and c.func.id not in ("int2b128", "b1282int"):
+                    h = mod_funcs[c.func.id]
+                    if any(isinstance(t, ast.If) and mentions(src(t.test)) and any(isinstance(r, ast.Raise) for r in ast.walk(t)) for t in ast.walk(h)):
+                        helper_nodes.append(k)
+                    else:
+                        unknown = True
+        if helper_nodes and g.must_precede(helper_nodes, [n_]) is None:
+            return True
+        return None if unknown else False
+
+    with structural(ctx, "limits-cfg/* (encoder)", "encode/size-limit-refused, encode/int-limit-refused (bounded)"):
+        ncls = norm_class(ctx, BANANA, "Banana", keep={n_ for n_ in meths_all if not n_.startswith("_")} | {"_encode"})
+        ne = next((m for m in ncls.body if isinstance(m, ast.FunctionDef) and m.name == "_encode"), None)
+        if ne is None:
+            raise Abstain("_encode not found in the normalised class")
+        g = ctx.cfg(ne)
+        sites = {t: g.find(lambda x, t=t: isinstance(x, ast.Call) and call_name(x) == "write" and len(x.args) == 1 and isinstance(x.args[0], ast.Name) and x.args[0].id == t) for t in tags}
+        if sum(1 for v in sites.values() if v) < 6:
+            raise Abstain("the encoder does not write its type bytes as plain `write(TAG)` statements")
+        for t, want in (("STRING", "SIZE_LIMIT"), ("LIST", "SIZE_LIMIT"), ("INT", "_largestLongInt"), ("LONGINT", "_largestLongInt"), ("NEG", "_smallestLongInt"), ("LONGNEG", "_smallestLongInt")):
+            for n_ in sites.get(t, []):
+                verdict = limit_guarded(g, n_, lambda t_, want=want: want in t_)
+                if verdict is None:
+                    raise Abstain("a module-level helper on the way may hold the limit test")
+                ctx.check(verdict, "limits-cfg/encoder-limit-dominates", ctx.construct(base + "Banana._encode", g.node(n_).ast),
+                          f"write({t}) can be reached on a path that never compared the value with {want}: an out-of-limit value is sent instead of refused",
+                          witness=g.describe(g.path([g.entry], [n_])))
+    with structural(ctx, "limits-cfg/* (decoder)", "decode/step, decode/prefix-digit-limit (bounded)"):
+        ncls = norm_class(ctx, BANANA, "Banana", keep={n_ for n_ in meths_all if not n_.startswith("_")} | {"_encode"})
+        nd = next((m for m in ncls.body if isinstance(m, ast.FunctionDef) and m.name == "dataReceived"), None)
+        if nd is None:
+            raise Abstain("dataReceived not found in the normalised class")
+        if any(isinstance(c, ast.Call) and (call_name(c) or "").startswith("self._") for c in ast.walk(nd)):
+            raise Abstain("a private helper of dataReceived could not be inlined")
+        g = ctx.cfg(nd)
+        delivers = g.find(lambda x: isinstance(x, ast.Call) and call_name(x) in ("gotItem", "self.gotItem", "listStack.append", "self.listStack.append"))
+        if len(delivers) < 6:
+            raise Abstain("delivery sites of the plain shape gotItem(..) / listStack.append(..) not found")
+        for n_ in delivers:
+            verdict = limit_guarded(g, n_, lambda t_: "prefixLimit" in t_ and ("len(" in t_ or "pos" in t_))
+            if verdict is None:
+                raise Abstain("a module-level helper on the way may hold the prefix test")
+            ctx.check(verdict, "limits-cfg/prefix-digit-test-dominates", ctx.construct(base + "Banana.dataReceived", g.node(n_).ast),
+                      "an item can be delivered on a path that never compared the number of prefix digits with prefixLimit (a test on the decoded value does not bound the digits: "
+                      "high-order zero digits are free)", witness=g.describe(g.path([g.entry], [n_])))
+        sized = g.find(lambda x: isinstance(x, ast.Call) and call_name(x) in ("listStack.append", "self.listStack.append")) + \
+            g.find(lambda x: isinstance(x, ast.Compare) and "len(rest)" in src(x) and "8" not in src(x))
+        for n_ in sized:
+            verdict = limit_guarded(g, n_, lambda t_: "SIZE_LIMIT" in t_)
+            if verdict is None:
+                raise Abstain("a module-level helper on the way may hold the size test")
+            ctx.check(verdict, "limits-cfg/size-test-dominates",
+                      ctx.construct(base + "Banana.dataReceived", g.node(n_).ast),
+                      "a declared list / string length is used (waited for, or allocated) on a path that never compared it with SIZE_LIMIT", witness=g.describe(g.path([g.entry], [n_])))
+    with structural(ctx, "sender-cfg/buffered-then-written", "encode/refused-atomically (bounded)"):
+        for m in [m for m in banana_cls.body if isinstance(m, ast.FunctionDef) and m.name != "_encode"]:
+            enc_calls = [c for c in ast.walk(m) if isinstance(c, ast.Call) and call_name(c) == "self._encode"]
+            if not enc_calls or any(isinstance(c, ast.Call) and call_name(c) == "self." + m.name for c in ast.walk(meths_all["_encode"])):
+                continue
+            g = ctx.cfg(m)
+            mq = base + "Banana." + m.name
+            for c in enc_calls:
+                if len(c.args) != 2:
+                    raise Abstain("self._encode(obj, write) call shape")
+                ctx.check("self.transport" not in src(c.args[1]), "sender-cfg/buffered-then-written", ctx.construct(mq, c) + " | write sink",
+                          "the encoder is handed the transport's write: when a later element is refused, the list header and the earlier elements are already on the wire")
+            enc_nodes = g.find(lambda x: isinstance(x, ast.Call) and call_name(x) == "self._encode")
+            tw = g.find(lambda x: isinstance(x, ast.Call) and (call_name(x) or "").startswith("self.transport.write"))
+            if tw:
+                wit = g.must_precede(enc_nodes, tw)
+                ctx.check(wit is None, "sender-cfg/buffered-then-written", mq + " | transport written only after encoding returned",
+                          "the transport can be written before the value has been encoded completely", witness=g.describe(wit))
 
     # ---- senders: a value that is refused leaves nothing on the wire
     with sect(ctx, 'senders: refused values leave nothing on the wire'):
